@@ -192,6 +192,21 @@ CLAIMS["C14"] = dict(
                   "def-use rule for check-then-return; call-site mode table",
     engine="tablex+cfgq")
 
+CLAIMS["C18"] = dict(
+    cat="other",
+    text="Decides, by evaluating Semantic::{normalized, sorted, at_age, at_lock_time, n_keys, minimum_n_keys, entails} and "
+         "Concrete::{lift, check_timelocks} from their typed syntax trees on every policy of a bounded family (all "
+         "k-of-n thresholds, n <= 3, over 11 atoms incl. both constants and both lock units, and over a mixed alphabet of "
+         "atoms and representative depth-1 thresholds; ~5-17k policies) against an independent truth-table oracle: "
+         "truth tables preserved, idempotence, normal form, order independence of sorted, exact restriction by age / "
+         "lock time below / at / above every lock and in the other unit, key counts, entailment == implication on all "
+         "pairs of a sub-family, mixed-lock check == existence of a path needing both units.",
+    note="Trusted: spec/policy_sem.py (atoms independent, as the library's entailment treats them); rust-bitcoin lock "
+         "comparison on consensus encodings; evaluator; model of the generic tree iterators. Bounded family: deeper / "
+         "wider policies are not enumerated.",
+    tech=STATIC + "bounded-exhaustive abstract evaluation of the policy algorithms' THIR compared with a truth-table oracle",
+    engine="tablex")
+
 NA = {
     "C15": "commitment arithmetic over hashes with shape-dependent index arithmetic: no sound structural argument in "
            "reach decides it; structural residue (depth bounds, constructor discipline, cache coherence, order "
